@@ -106,6 +106,12 @@ CLAIMED["C13"] = dict(
   technique="lockset and lock-order obligations on SMT-based symbolic execution paths of go/ssa",
   ref="4-C13")
 
+CLAIMED["C16"] = dict(
+  text="Symbolic execution (SMT over go/ssa) of the REAL token/stateful.go (Update, Get, Delete, Expire, List, load, add, rewrite, list, etag, reset) over a GHOST FILE SYSTEM (engine model of the os / encoding/json calls it makes: a file is the sequence of encoded values plus a (size, mtime) version whose mtime moves by one nanosecond per modification; rename replaces atomically): after every sequence of K operations out of create / edit-with-current-tag / delete-with-current-tag / expiry sweep over three tokens the running server and a freshly started server reading the same file honour exactly the same tokens; deleted and swept tokens are gone for both; of two editors holding the same tag the second is refused and changes nothing; every change yields a new tag; the empty tag never overwrites; an external removal of the file revokes everything. Counterexamples are replayed natively against the real file system in a temporary directory.",
+  note="Bounds: K=3 (thorough 4) over an 8-operation vocabulary, 4x3 editor pairs. NOT decided (stated plainly): failure of any file-system call (the roll-back paths) and a crash at each step of rewrite (the 'atomic replacement' clause) - fault/crash injection was deliberately left out of the ghost FS because such counterexamples cannot be replayed natively; truly concurrent editors (exclusion rests on the mutex; sequential composition is what is checked); JSON syntax (a file is the sequence of values handed to the encoder); mtime granularity of real file systems. Trusted: go/ssa, gosmt and its ghost FS, z3/cvc5.",
+  technique="bounded symbolic execution of go/ssa with SMT over a ghost file-system model; native replay on the real file system",
+  ref="4-C16")
+
 NOT_APPLICABLE = {
 }
 
